@@ -450,12 +450,45 @@ def gen_ring0(ctx: Ctx, family: Optional[str]) -> Optional[List[Any]]:
     return None
 
 
+def gen_forall_and_exists(ctx: Ctx) -> Optional[List[Any]]:
+    """`(forall <U> u: phi(u)) and (exists <W> w: psi(w))` with <U> not reachable from
+    <W>: when the existential is satisfied by inserting a new <W>, the rules on the
+    connecting path bring new open siblings that can derive <U>; the universal formula
+    has to hold for them as well.  Pairs that occur as siblings in one rule preferred."""
+    rng = ctx.rng
+    nts = [n for n in ctx.nts if n != "<start>"]
+    pairs = [(u, w) for u in nts for w in nts if u != w and u not in ctx.below(w)]
+    if not pairs:
+        return None
+
+    def siblings(u, w):
+        for alts in ctx.can.values():
+            for alt in alts:
+                if w in alt and any(t != w and t.startswith("<") and (t == u or u in ctx.below(t)) for t in alt):
+                    return True
+        return False
+
+    unrelated = [(u, w) for u, w in pairs if w not in ctx.below(u)]
+    sib = [(u, w) for u, w in unrelated if siblings(u, w)]
+    u, w = rng.choice(sib or unrelated or pairs)
+    env = {"start": "<start>"}
+    n1, env1, v1 = quantifier(ctx, "forall", u, "start", env, False)
+    n1[5] = gen_body(ctx, env1, [v1], depth=0)
+    n2, env2, v2 = quantifier(ctx, "exists", w, "start", env, False)
+    n2[5] = gen_body(ctx, env2, [v2], depth=0) if rng.random() < 0.7 else ["true"]
+    return ["and", n1, n2] if rng.random() < 0.5 else ["and", n2, n1]
+
+
 def gen_formula(g: Grammar, rng: random.Random, family: Optional[str] = None) -> List[Any]:
     ctx = Ctx(g, rng)
     if family is not None and rng.random() < 0.3:
         f = gen_ring0(ctx, family)
         if f is not None:
             return f
+    if rng.random() < 0.09:
+        f = gen_forall_and_exists(ctx)
+        if f is not None:
+            return bind_unused(ctx, f, {"start": "<start>"})
     r = rng.random()
     if r < 0.04:
         return ["true"]
